@@ -3,9 +3,16 @@
 package main
 
 import (
+	"crypto/sha256"
+	"encoding/binary"
+	"encoding/hex"
 	"fmt"
 	"hash"
 	"io"
+	"os"
+	osexec "os/exec"
+	"path/filepath"
+	"regexp"
 	"strings"
 
 	"golang.org/x/crypto/sha3"
@@ -95,9 +102,90 @@ func customStr(g *hx.Gen) []byte {
 	}
 }
 
+var wsRe = regexp.MustCompile(`\s+`)
+
+// normKeccakf: the statements of keccakF1600's loop body, comments / blank lines dropped, whitespace
+// removed, joined by "\n" — the same normalisation as gen_keccakf_model.py.
+func normKeccakf(src string) string {
+	lines := strings.Split(src, "\n")
+	start, end := -1, -1
+	for i, l := range lines {
+		if start < 0 && strings.TrimSpace(l) == "for i := 0; i < 24; i += 4 {" {
+			start = i
+		} else if start >= 0 && l == "\t}" {
+			end = i
+			break
+		}
+	}
+	if start < 0 || end < 0 {
+		return "loop-not-found"
+	}
+	var out []string
+	for _, l := range lines[start+1 : end] {
+		t := strings.TrimSpace(l)
+		if t == "" || strings.HasPrefix(t, "//") {
+			continue
+		}
+		out = append(out, wsRe.ReplaceAllString(t, ""))
+	}
+	return strings.Join(out, "\n")
+}
+
+func keccakfSrcHash() string {
+	h := sha256.Sum256([]byte(normKeccakf(sha3.VerifKeccakfSource)))
+	return hex.EncodeToString(h[:])
+}
+
+// regenStatus re-runs the model generator on the source this binary was built from and compares
+// with the committed Lean file (go:generate-style staleness test).
+func regenStatus() string {
+	root := os.Getenv("VERIF_ROOT")
+	if root == "" {
+		root = "/verif"
+	}
+	tmp, err := os.CreateTemp("", "keccakf-*.go")
+	if err != nil {
+		return "unavailable"
+	}
+	defer os.Remove(tmp.Name())
+	tmp.WriteString(sha3.VerifKeccakfSource)
+	tmp.Close()
+	out, err := osexec.Command("python3", filepath.Join(root, "harness/cmd/c08/gen_keccakf_model.py"), "--src", tmp.Name(), "--check").CombinedOutput()
+	if err == nil && strings.HasPrefix(string(out), "up to date") {
+		return "uptodate"
+	}
+	if strings.HasPrefix(string(out), "STALE") {
+		return "stale"
+	}
+	return "unavailable"
+}
+
 func gen(g *hx.Gen) {
 	n := g.Count(3000, 60000)
 	r := g.R
+	// the Lean model of keccakF1600 is generated from the Go source: staleness + statement hash
+	g.Emit("regen status=%s", regenStatus())
+	g.Emit("src file=keccakf")
+	// the permutation itself: structured states (single bits, single lanes, all-ones) and random ones
+	for i := 0; i < g.Count(300, 5000); i++ {
+		st := make([]byte, 200)
+		switch r.Intn(6) {
+		case 0:
+			st[r.Intn(200)] = 1 << r.Intn(8)
+		case 1:
+			copy(st[8*r.Intn(25):], r.Bytes(8))
+		case 2:
+			for j := range st {
+				st[j] = 0xff
+			}
+			st[r.Intn(200)] ^= 1 << r.Intn(8)
+		case 3: // all zero
+		default:
+			st = r.Bytes(200)
+		}
+		g.Stat("kf")
+		g.Emit("kf in=%s", hx.Hex(st))
+	}
 	for i := 0; i < n; i++ {
 		if r.Chance(1, 10) { // one-shot API
 			fn := hx.Pick(r, append(append([]string{}, fixedFns...), "shake128", "shake256"))
@@ -281,6 +369,25 @@ func execOne(o hx.Op) string {
 func exec(line string) string {
 	o := hx.Parse(line)
 	switch o.Cmd {
+	case "regen":
+		return o.Str("status")
+	case "src":
+		return keccakfSrcHash()
+	case "kf":
+		in := o.Hex("in")
+		if len(in) != 200 {
+			return "bad-op"
+		}
+		var a [25]uint64
+		for i := range a {
+			a[i] = binary.LittleEndian.Uint64(in[8*i:])
+		}
+		sha3.VerifKeccakF1600(&a)
+		out := make([]byte, 200)
+		for i := range a {
+			binary.LittleEndian.PutUint64(out[8*i:], a[i])
+		}
+		return hx.Hex(out)
 	case "one":
 		return execOne(o)
 	case "kat":
